@@ -218,6 +218,9 @@ func init() {
 			cstep("step-keylen1", map[string]int64{"lenset": 3, "keylen": 1}, []string{"c04-"}, csb+"key length 1; value lengths {1,p,3p}"),
 			cstep("step-keylen250", map[string]int64{"lenset": 3, "keylen": 250}, []string{"c04-"}, csb+"key length 250; value lengths {1,p,3p}"),
 			cstep("step-two-keys-border", map[string]int64{"lenset": 1, "nkeys": 2}, []string{"c04-"}, csb+"two client keys; value lengths {p-1,p,p+1}"),
+			cstep("step-four-chunks", map[string]int64{"lenset": 4}, []string{"c04-"}, csb+"key length 5; value lengths {2p-1,3p+1,4p}"),
+			cstep("step-five-chunks", map[string]int64{"lenset": 5}, []string{"c04-"}, csb+"key length 5; value lengths {p+1,2p,5p-1}"),
+			cstep("step-two-keys-two-chunks", map[string]int64{"lenset": 2, "nkeys": 2}, []string{"c04-"}, csb+"two client keys; value lengths {0,2p,2p+1}"),
 		}})
 	closs := func(name string, maxn int64, bounds string) Job {
 		return Job{Pkg: "./handlers/memcached/chunked", Func: "ZZChunkedLoss", Setup: "ZZSetup", Name: name, Params: map[string]int64{"maxchunks": maxn}, Reach: []string{"read-done"}, Bounds: bounds}
@@ -286,6 +289,7 @@ func init() {
 		Quick: []Job{
 			bjob("ZZBatchedStep", "", nil, []string{"step-done"}, "one command (set add replace append prepend delete touch gat get gete; gets of 1-2 keys incl. duplicates, symbolic quiet flags and opaques) through the pool and over a direct std connection from equal arbitrary backend states (2 keys): same outcome, data, flags, remaining TTL, same backend state"),
 			bjob("ZZBatchedTwoCallers", "", nil, []string{"both-done"}, "two callers at once, their requests in one batch (A: any command on keys 0-1 incl. 2-key gets, B: any command on key 2): each receives what it would receive alone"),
+			bjob("ZZBatchedTwoCallers", "two-callers-finite-socket-buffers", map[string]int64{"sockcap": 0}, []string{"both-done"}, "as ZZBatchedTwoCallers over a backend connection with finite socket buffers, scaled down to nothing: a write completes only once the backend has taken all of it, and the backend stops taking requests while replies are unread (the pool must be reading replies while it writes a batch)"),
 			bjob("ZZBatchedHold", "", nil, []string{"held"}, "a value obtained by get / gete / gat is compared with the direct connection's only after two further gets have gone over the same pooled connection"),
 		},
 		Thorough: []Job{bjob("ZZBatchedStep", "step-3keys-3getkeys", map[string]int64{"nk": 3, "getkeys": 3}, []string{"step-done"}, "as quick with 3 keys and gets of 1-3 keys")}})
